@@ -13,8 +13,10 @@ import re
 from harness.lib import common  # noqa: F401
 from harness.translate import c14 as tr
 
+from compiler.util import ir_data
 from compiler.util import ir_data_utils
 from compiler.util import ir_util
+from compiler.util import traverse_ir
 
 
 class OutOfScope(Exception):
@@ -138,6 +140,7 @@ class Walker:
 
     def typedef(self, td, bounds):
         d = {"id": self.ids[self._key(td.name.canonical_name)], "name": td.name.name.text,
+             "path": ".".join(td.name.canonical_name.object_path),
              "anon": bool(td.name.is_anonymous), "unit": int(td.addressable_unit or 0),
              "attrs": self.attrs(td), "values": [], "fields": [],
              "params": [self.param(p, bounds) for p in td.runtime_parameter],
@@ -177,11 +180,207 @@ class Walker:
                 for v in x:
                     walk(v)
         walk(md)
-        return {"attrs": self.attrs(m), "types": [self.typedef(t, bounds) for t in m.type],
-                "refs": refs}
+        return {"attrs": self.attrs(m), "file": m.source_file_name,
+                "types": [self.typedef(t, bounds) for t in m.type],
+                "refs": refs, "gated": [[synthetic(e), atree(e)] for e in gate_roots(m)] if bounds else []}
 
     def program(self, bounds=True):
         return [self.module(m, bounds) for m in self.ir.module]
+
+
+# ---------------------------------------------------------------- the 64-bit gate (C05's model)
+def gate_roots(node):
+    """The expressions `_check_bounds_on_runtime_integer_expressions` is called on, in traversal
+    order: every outermost Expression that is not inside an EnumValue and not inside a
+    `[static_requirements]` attribute.  Field order from the traversal library's own table."""
+    out = []
+
+    def go(n):
+        if isinstance(n, ir_data.Expression):
+            out.append(n)
+            return
+        if isinstance(n, ir_data.EnumValue):
+            return
+        if isinstance(n, ir_data.Attribute) and n.name.text == "static_requirements":
+            return
+        key = (type(n), ir_data.Expression)
+        if key not in traverse_ir._FIELDS_TO_SCAN_BY_CURRENT_AND_TARGET:
+            return
+        singular, repeated = traverse_ir._FIELDS_TO_SCAN_BY_CURRENT_AND_TARGET[key]
+        for name in singular:
+            if n.has_field(name):
+                go(getattr(n, name))
+        for name in repeated:
+            for el in getattr(n, name) or []:
+                go(el)
+    go(node)
+    return out
+
+
+def _ext(s):
+    if s in (None, ""):
+        raise OutOfScope("missing bound")
+    if s == "infinity":
+        return "inf"
+    if s == "-infinity":
+        return "-inf"
+    return str(int(s))
+
+
+def synthetic(e):
+    """Is the error the gate would report for this root hidden by `error.split_errors`?  An
+    error is hidden iff its location is synthetic AND truthy: `error.location_or_default`
+    replaces a falsy (all-zero) location, synthetic or not, by a fresh non-synthetic one (that
+    such errors are shown to the user at 0:0-0:0 is C16's business).  The gate reports at the
+    lowest failing node, so a root whose nodes differ in that flag is only in scope when no
+    node can fail (every integer node fits int64)."""
+    flags = set()
+    can_fail = []
+
+    def go(x):
+        loc = ir_data_utils.reader(x).source_location
+        flags.add(bool(loc) and bool(loc.is_synthetic))
+        if x.type.which_type == "integer":
+            it = x.type.integer
+            try:
+                ok = -(2 ** 63) <= int(it.minimum_value) and int(it.maximum_value) <= 2 ** 63 - 1
+            except ValueError:
+                ok = False
+            if not ok:
+                can_fail.append(x)
+        if x.which_expression == "function":
+            for a in x.function.args:
+                go(a)
+    go(e)
+    if len(flags) != 1:
+        if can_fail:
+            raise OutOfScope("gated expression with synthetic and natural parts")
+        return False
+    return flags.pop()
+
+
+def atree(e):
+    """Expression -> [isFn, type, args] with type = ["int", min, max, modulus] | ["other"]
+    (the annotated tree `Emboss.Bounds.gate` looks at)."""
+    t = e.type
+    if t.which_type == "integer":
+        it = t.integer
+        ty = ["int", _ext(it.minimum_value), _ext(it.maximum_value),
+              "inf" if it.modulus == "infinity" else str(int(it.modulus or 0))]
+    elif t.which_type == "boolean":
+        ty = ["bool", bool(t.boolean.has_field("value"))]
+    elif t.which_type == "enumeration":
+        ty = ["enum", bool(t.enumeration.has_field("value"))]
+    else:
+        ty = ["bool", False]
+    is_fn = e.which_expression == "function"
+    return [is_fn, ty, [atree(a) for a in e.function.args] if is_fn else []]
+
+
+# ---------------------------------------------------------------- byte orders
+def _own_attr_any(attrs, name):
+    """First non-$default attribute of that name, whatever its qualifier (= what
+    ir_util.get_attribute returns when it does not assert)."""
+    for a in attrs:
+        if a.name.text == name and not a.is_default:
+            return a
+    return None
+
+
+def real_byte_orders(ir):
+    """(module file, type path, field name) -> text of the byte_order attribute the front end
+    left on the physical field (None: no such attribute), from the IR after normalisation."""
+    out = {}
+
+    def go(mf, td):
+        if td.has_field("structure"):
+            for f in td.structure.field:
+                if f.has_field("location"):
+                    a = _own_attr_any(f.attribute, "byte_order")
+                    v = None
+                    if a is not None:
+                        v = a.value.string_constant.text if a.value.has_field("string_constant") else "?"
+                    out[(mf, ".".join(td.name.canonical_name.object_path), f.name.name.text)] = v
+        for s in td.subtype:
+            go(mf, s)
+    for m in ir.module:
+        for td in m.type:
+            go(m.source_file_name, td)
+    return out
+
+
+def _doc_unit(td):
+    """Addressable unit of a type definition as documented: struct = byte, bits / enum = bit,
+    external = its addressable_unit_size."""
+    if td.has_field("external"):
+        for a in td.attribute:
+            if a.name.text == "addressable_unit_size" and not a.is_default and \
+                    not ir_data_utils.reader(a).back_end.text:
+                return ir_util.constant_value(a.value.expression)
+        return None
+    if td.has_field("enumeration"):
+        return 1
+    return int(td.addressable_unit)
+
+
+def spec_byte_orders(ir):
+    """Documented byte order of every physical field, from the IR BEFORE normalisation, written
+    from doc/language-reference.md (Attributes: `[$default name: value]` = "Default name to value
+    for all sub-entities"; byte_order: "A $default byte order may be set on a module or
+    structure", "The "Null" byte order is used if no byte_order attribute is specified"):
+    the field's own unqualified [byte_order]; else, for a field whose type is addressed in a
+    different unit than its structure (byte-order dependent), the NEAREST enclosing `$default
+    byte_order` (structure, enclosing structures, module) and "Null" if there is none;
+    else nothing.  Values: text, or None."""
+    out = {}
+    types = {}
+
+    def index(td):
+        cn = td.name.canonical_name
+        types[(cn.module_file,) + tuple(cn.object_path)] = td
+        for s in td.subtype:
+            index(s)
+    for m in ir.module:
+        for td in m.type:
+            index(td)
+
+    def own(attrs, default):
+        v = None
+        for a in attrs:
+            if a.name.text == "byte_order" and bool(a.is_default) == default and \
+                    not ir_data_utils.reader(a).back_end.text and a.value.has_field("string_constant"):
+                v = a.value.string_constant.text
+        return v
+
+    def leaf(t):
+        while t.has_field("array_type"):
+            t = t.array_type.base_type
+        return t
+
+    def go(mf, td, inherited):
+        d = own(td.attribute, True) or inherited          # a NEW binding: siblings keep `inherited`
+        if td.has_field("structure"):
+            for f in td.structure.field:
+                if not f.has_field("location"):
+                    continue
+                key = (mf, ".".join(td.name.canonical_name.object_path), f.name.name.text)
+                mine = own(f.attribute, False)
+                cn = leaf(f.type).atomic_type.reference.canonical_name
+                ft = types.get((cn.module_file,) + tuple(cn.object_path))
+                dependent = ft is not None and _doc_unit(ft) != _doc_unit(td)
+                if mine is not None:
+                    out[key] = mine
+                elif dependent:
+                    out[key] = d if d is not None else "Null"
+                else:
+                    out[key] = None
+        for s in td.subtype:
+            go(mf, s, d)
+    for m in ir.module:
+        md = own(m.attribute, True)
+        for td in m.type:
+            go(m.source_file_name, td, md)
+    return out
 
 
 def abstract(ir, bounds=True):
@@ -232,10 +431,10 @@ _PATTERNS = [
     (r"Integer range of parameter must not be unbounded", "param-bounds"),
     (r"Potential range of parameter is ", "param-bounds"),
     (r"Constant value .* of parameter cannot fit", "param-bounds"),
-    (r"Integer range of expression must not be unbounded", "gate"),
-    (r"Potential range of expression is ", "gate"),
-    (r"Constant value .* of expression cannot fit", "gate"),
-    (r"Either all arguments to '.*' and its result must fit in a 64-bit", "gate"),
+    (r"Integer range of expression must not be unbounded", "gate:unbounded"),
+    (r"Potential range of expression is ", "gate:range"),
+    (r"Constant value .* of expression cannot fit", "gate:const"),
+    (r"Either all arguments to '.*' and its result must fit in a 64-bit", "gate:mixed"),
 ]
 _COMPILED = [(re.compile(p), k) for p, k in _PATTERNS]
 
@@ -250,8 +449,9 @@ def classify(message):
 
 
 def real_kinds(errors):
-    """Sorted error kinds of the real error groups (first message of each group)."""
-    return sorted(classify(g[0].message) for g in errors)
+    """Error kinds of the real error groups (first message of each group), IN THE ORDER the
+    front end reports them."""
+    return [classify(g[0].message) for g in errors]
 
 
 EARLY_KINDS = {"param-needs-size", "param-enum-sized"}
